@@ -985,7 +985,7 @@ func init() {
 			f.O.Budget += 3
 		}
 	}, "class_ErrSubmit", "class_ErrBreak", "class_ErrDown", "class_ErrCanceled", "class_ErrAbandoned")})
-	register("C17", Family{Name: "windows", Weight: 1, Run: flowFamily(func(f *Flow) {
+	register("C17", Family{Name: "windows", Weight: 600, Run: flowFamily(func(f *Flow) {
 		f.O.ALOMax = []int{1, 0, 2, 3, -1, 20000}[f.W.Tape.Draw("alomax17", 6)]
 		f.O.EOMax = []int{1, 0, 2, 3, -1, 20000}[f.W.Tape.Draw("eomax17", 6)]
 		f.O.Publishers = 1 + f.W.Tape.Draw("npub17", 4)
@@ -993,7 +993,7 @@ func init() {
 		f.O.Requesters = f.W.Tape.Draw("nreq17", 2)
 		f.O.PerReq = 3
 	}, "errmax_returned")})
-	register("C17", Family{Name: "wrap", Weight: 1, Run: flowFamily(func(f *Flow) {
+	register("C17", Family{Name: "wrap", Weight: 600, Run: flowFamily(func(f *Flow) {
 		o := &f.O
 		o.Constructed = true
 		o.Generations = 2 + f.W.Tape.Draw("gens17", 2)
